@@ -57,6 +57,9 @@ SPECIAL = [
                                    ["s", "xor", ["s", "a"], True]]},
     # constants only, no primary input (the bench writer needs an input for its constant idiom)
     {"name": "konst", "nodes": [["k0", "0", [], False], ["k1", "1", [], False], ["g", "nand", ["k0", "k1"], True]]},
+    # dead logic next to live logic (lint-clean under the default flags): an unloaded gate chain, an unloaded input
+    {"name": "dead", "nodes": [["a", "input", [], False], ["b", "input", [], False], ["u", "input", [], False],
+                               ["g", "and", ["a", "b"], True], ["d1", "not", ["a"], False], ["d2", "or", ["d1", "b"], False]]},
     # x constant and an escaped name
     {"name": "esc", "nodes": [["a", "input", [], False], ["kx", "x", [], False], ["\\n[0]", "and", ["a", "kx"], True]]},
 ]
